@@ -1191,6 +1191,171 @@ def context_managers_to_try(program, log):
         rewrite(f.node.body, f)
 
 
+def rotate_idiom(program, log):
+    """`q.append(q.popleft())` on a deque known to be non-empty (an earlier
+    statement of the same block returns when it is empty / has at most one
+    element) reads `q.rotate(-1)`."""
+    def rewrite(body, f):
+        for i, st in enumerate(body):
+            for fld in ('body', 'orelse', 'finalbody'):
+                sub_ = getattr(st, fld, None)
+                if isinstance(sub_, list) and sub_ and isinstance(
+                        sub_[0], ast.stmt):
+                    rewrite(sub_, f)
+            for h in getattr(st, 'handlers', []) or []:
+                rewrite(h.body, f)
+            if not (isinstance(st, ast.Expr) and isinstance(
+                    st.value, ast.Call) and isinstance(
+                        st.value.func, ast.Attribute)
+                    and st.value.func.attr == 'append'
+                    and len(st.value.args) == 1 and not st.value.keywords):
+                continue
+            q = st.value.func.value
+            a = st.value.args[0]
+            if not (isinstance(a, ast.Call) and isinstance(
+                    a.func, ast.Attribute) and a.func.attr == 'popleft'
+                    and not a.args and dotted(a.func.value)
+                    and dotted(a.func.value) == dotted(q)):
+                continue
+            qt = dotted(q)
+            guarded = any(
+                isinstance(p, ast.If) and not p.orelse and len(p.body) == 1
+                and isinstance(p.body[0], ast.Return)
+                and norm(p.test) in (f'len({qt}) <= 1', f'len({qt}) < 2',
+                                     f'not {qt}', f'len({qt}) == 0',
+                                     f'len({qt}) < 1')
+                for p in body[:i])
+            if not guarded:
+                continue
+            st.value = ast.copy_location(ast.Call(
+                ast.Attribute(q, 'rotate', ast.Load()),
+                [ast.UnaryOp(ast.USub(), ast.Constant(1))], []), st.value)
+            ast.fix_missing_locations(st)
+            log.append(f'{f.where}: `{qt}.append({qt}.popleft())` on a '
+                       'non-empty deque read as rotate(-1)')
+    for f in program.all_functions():
+        rewrite(f.node.body, f)
+
+
+def mirror_locals(program, log):
+    """A local kept equal to an attribute of self: first bound `x = self.a`,
+    and from then on every store of either one is the chained assignment
+    `x = self.a = V` - while no other method of the class family (except
+    __init__) writes self.a, so nothing that runs in between can change it.
+    Reads of x are reads of self.a; the chained stores are stores of self.a
+    (`self.a = self.a + V` is written `self.a += V`)."""
+    import copy as _copy
+    for f in program.all_functions():
+        if f.cls is None:
+            continue
+        fn = f.node
+        firsts = {}
+        for st in fn.body:
+            if isinstance(st, ast.Assign) and len(st.targets) == 1 \
+                    and isinstance(st.targets[0], ast.Name) \
+                    and _self_attr(st.value) is not None:
+                firsts.setdefault(st.targets[0].id, st)
+        for x, first in firsts.items():
+            a = _self_attr(first.value)
+            ok = True
+            chained = []
+            for n in ast.walk(fn):
+                if isinstance(n, (ast.FunctionDef, ast.Lambda)) and n is not fn:
+                    if any(isinstance(y, ast.Name) and y.id == x
+                           for y in ast.walk(n)):
+                        ok = False
+                if isinstance(n, ast.Assign) and n is not first:
+                    tx = [t for t in n.targets if isinstance(t, ast.Name)
+                          and t.id == x]
+                    ta = [t for t in n.targets if _self_attr(t) == a]
+                    if tx or ta:
+                        if len(n.targets) == 2 and tx and ta:
+                            chained.append(n)
+                        else:
+                            ok = False
+                    for t in n.targets:
+                        if isinstance(t, (ast.Tuple, ast.List)) and any(
+                                (isinstance(y, ast.Name) and y.id == x)
+                                or _self_attr(y) == a for y in ast.walk(t)):
+                            ok = False
+                elif isinstance(n, (ast.AugAssign, ast.AnnAssign)):
+                    if (isinstance(n.target, ast.Name) and n.target.id == x) \
+                            or _self_attr(n.target) == a:
+                        ok = False
+                elif isinstance(n, (ast.For, ast.comprehension)):
+                    if any(isinstance(y, ast.Name) and y.id == x
+                           for y in ast.walk(n.target)):
+                        ok = False
+                elif isinstance(n, (ast.NamedExpr,)) and n.target.id == x:
+                    ok = False
+                elif isinstance(n, ast.Delete):
+                    ok = False if any(isinstance(y, ast.Name) and y.id == x
+                                      for t in n.targets
+                                      for y in ast.walk(t)) else ok
+            if not ok or not chained:
+                continue
+            # nobody else writes the attribute
+            fam = [f.cls] + program.subclasses(f.cls) + [
+                b for b in program.mro(f.cls) if b is not f.cls]
+            for c in fam:
+                for m in c.methods.values():
+                    if m.node is fn or m.name == '__init__':
+                        continue
+                    for n in ast.walk(m.node):
+                        tg = []
+                        if isinstance(n, ast.Assign):
+                            tg = n.targets
+                        elif isinstance(n, (ast.AugAssign, ast.AnnAssign)):
+                            tg = [n.target]
+                        elif isinstance(n, ast.Call) and dotted(n.func) in (
+                                'setattr', 'object.__setattr__'):
+                            ok = False if len(n.args) >= 2 and isinstance(
+                                n.args[1], ast.Constant) and n.args[
+                                    1].value == a else ok
+                        if any(_self_attr(y) == a for t in tg
+                               for y in ast.walk(t)):
+                            ok = False
+            if not ok:
+                continue
+
+            class R(ast.NodeTransformer):
+                def visit_Name(self, n):
+                    if n.id == x and isinstance(n.ctx, ast.Load):
+                        return ast.copy_location(ast.Attribute(
+                            ast.Name('self', ast.Load()), a, ast.Load()), n)
+                    return n
+
+            def fix(body):
+                for i, st in enumerate(list(body)):
+                    for fld in ('body', 'orelse', 'finalbody'):
+                        sub_ = getattr(st, fld, None)
+                        if isinstance(sub_, list) and sub_ and isinstance(
+                                sub_[0], ast.stmt):
+                            fix(sub_)
+                    for h in getattr(st, 'handlers', []) or []:
+                        fix(h.body)
+                    if st is first:
+                        body[body.index(st)] = ast.copy_location(ast.Pass(),
+                                                                 st)
+                    elif st in chained:
+                        v = R().visit(st.value)
+                        tgt = ast.Attribute(ast.Name('self', ast.Load()), a,
+                                            ast.Store())
+                        if isinstance(v, ast.BinOp) and isinstance(
+                                v.op, ast.Add) and _self_attr(v.left) == a:
+                            new = ast.AugAssign(tgt, ast.Add(), v.right)
+                        else:
+                            new = ast.Assign([tgt], v)
+                        ast.copy_location(new, st)
+                        ast.fix_missing_locations(new)
+                        body[body.index(st)] = new
+            fix(fn.body)
+            R().visit(fn)
+            ast.fix_missing_locations(fn)
+            log.append(f'{f.where}: local `{x}` mirrors self.{a} (every store '
+                       'is chained, no other writer): read as the attribute')
+
+
 def sentinel_lookups(program, log):
     """`x = D.get(k, _S)` immediately followed by `if x is not _S: BODY [else:
     ELSE]` (or `if x is _S: ELSE else: BODY`), with _S a private module-level
@@ -1567,7 +1732,7 @@ def run(program):
     program.records = {}
     program.cow = set()
     for step in (explicit_properties, walrus_out, inline_simple_decorators,
-                 sentinel_lookups, inline_aliases, context_managers_to_try, rpartition_keys,
+                 sentinel_lookups, mirror_locals, rotate_idiom, inline_aliases, context_managers_to_try, rpartition_keys,
                  slices_of_islice,
                  pop_last_idiom,
                  bool_dispatch_tables, yield_from_genexp, copy_on_write_sets,
